@@ -821,16 +821,55 @@ func (e *Engine) ghostCall(c *CallCtx, g string, fn *ssa.Function) *Term {
 		}
 		walk(probe)
 		var names []string
-		for name := range e.compSorts {
-			if v, ok := c.rd.comps[name]; ok && sub[v.id] {
-				names = append(names, name)
-			} else if !ok {
-				if v := e.comp(c.rd, name); sub[v.id] {
+		// a component is read by f if its current value, or an older version of
+		// it below stores that the reads skipped, occurs in the probe
+		dependsOn := func(v *Term) bool {
+			seenA := map[int]bool{}
+			var down func(a *Term, d int) bool
+			down = func(a *Term, d int) bool {
+				if seenA[a.id] || d > 4000 {
+					return false
+				}
+				seenA[a.id] = true
+				if sub[a.id] {
+					return true
+				}
+				switch a.Op {
+				case "store":
+					return down(a.Args[0], d+1)
+				case "ite":
+					return down(a.Args[1], d+1) || down(a.Args[2], d+1)
+				}
+				return false
+			}
+			return down(v, 0)
+		}
+		for name, srt := range e.compSorts {
+			if srt.Kind != "array" {
+				if v := e.comp(c.rd, name); sub[v.id] && !v.IsConst() {
 					names = append(names, name)
 				}
+				continue
+			}
+			if dependsOn(e.comp(c.rd, name)) {
+				names = append(names, name)
 			}
 		}
 		sort.Strings(names)
+		if os.Getenv("GVC_FOLDDBG") != "" {
+			pp := newPrinter()
+			pp.count(probe)
+			fmt.Fprintf(os.Stderr, "FOLD %s names=%v probe=%s\n", cl.fn.String(), names, pp.expr(probe))
+			if v, ok := c.rd.comps["E:string"]; ok {
+				fmt.Fprintf(os.Stderr, "     rd.comps[E:string] = %s %v in-sub=%v\n", v.Op, v.SVal, sub[v.id])
+			} else {
+				_, has := e.compSorts["E:string"]
+				fmt.Fprintf(os.Stderr, "     rd.comps[E:string] absent; comp()=%s declared=%v\n", e.comp(c.rd, "E:string").SVal, has)
+			}
+			for _, d := range pp.defs {
+				fmt.Fprintf(os.Stderr, "     %s\n", d)
+			}
+		}
 		var args []*Term
 		var sorts []*Sort
 		for _, b := range bvals {
@@ -851,6 +890,9 @@ func (e *Engine) ghostCall(c *CallCtx, g string, fn *ssa.Function) *Term {
 		}
 		u := DeclUF("fold:"+cl.fn.String()+":"+strings.Join(names, ","), res, append(sorts, IntS)...)
 		F := func(k *Term) *Term { return App(u, append(append([]*Term{}, args...), k)...) }
+		if n.Op == "int" && n.IVal.Sign() <= 0 {
+			return unit // the empty fold
+		}
 		fn := F(n)
 		// n == m+1 >= 1 for an index m asked for before (the loop head): the
 		// definition is unfolded once, so that the step reads F(m) ++ f(m)
@@ -1343,19 +1385,37 @@ func (e *Engine) assumeInvariants(fr *Frame, li *loopInfo, ls *LoopSpec, st *Sta
 		// an invariant of the form  <havocked ghost cell> == <term>  determines
 		// that cell at the loop head: later reads see the term itself
 		for _, cj := range conj(g) {
-			if cj.Op != "=" || len(cj.Args) != 2 {
+			// [guard ==>] cell == term
+			cond, eq := True, cj
+			if cj.Op == "or" {
+				var others []*Term
+				eq = nil
+				for _, a := range cj.Args {
+					if a.Op == "=" && eq == nil && len(a.Args) == 2 && (a.Args[0].Op == "select" || a.Args[1].Op == "select") {
+						eq = a
+					} else {
+						others = append(others, Not(a))
+					}
+				}
+				if eq == nil {
+					continue
+				}
+				cond = And(others...)
+			}
+			if eq.Op != "=" || len(eq.Args) != 2 {
 				continue
 			}
 			for k := 0; k < 2; k++ {
-				l, r := cj.Args[k], cj.Args[1-k]
-				if l.Op != "select" || l.Args[0].Op != "sym" || !strings.HasPrefix(l.Args[0].SVal, "hv:X:") || containsTerm(r, l.Args[0]) {
+				l, r := eq.Args[k], eq.Args[1-k]
+				if l.Op != "select" || l.Args[0].Op != "sym" || !strings.HasPrefix(l.Args[0].SVal, "hv:") || containsTerm(r, l.Args[0]) || containsTerm(cond, l.Args[0]) {
 					continue
 				}
 				for name, v := range st.comps {
 					if v == l.Args[0] {
-						st.comps[name] = Store(v, l.Args[1], r)
+						st.comps[name] = Store(v, l.Args[1], Ite(cond, r, l))
 					}
 				}
+				break
 			}
 		}
 	}
